@@ -374,6 +374,13 @@ class Interp:
         if isinstance(l, TV) and isinstance(r, TV):
             if isinstance(op, ast.MatMult):
                 return self.matmul(l, r)
+            for i in range(1, min(len(l.shape), len(r.shape)) + 1):
+                a, b = l.shape[-i], r.shape[-i]
+                if a != b and a[0] == b[0] == 'sym' and str(a[1]).startswith('prod(') and str(b[1]).startswith('prod('):
+                    fa, fb = str(a[1])[5:-1].split('*'), str(b[1])[5:-1].split('*')
+                    if sorted(fa) == sorted(fb) and fa != fb:
+                        self.report(node, 'elementwise operation between two flattened axes with the same factors in different order (%s vs %s): '
+                                    'the entries of one operand are paired with the wrong rows of the other' % (a[1], b[1]))
             sh = broadcast(l.shape, r.shape)
             if sh is None:
                 self.unknown += 1
@@ -995,7 +1002,16 @@ class Interp:
                 return TV(dims, recv.dom, recv.mask, recv.key)
             if m in ('view', 'reshape'):
                 dims = [self.fresh(('view', dump(c), i), 'v') if d0 == lit(-1) else d0 for i, d0 in enumerate(s.dims)]
+                if len(s.dims) == 2 and s.dims[0] == lit(-1) and s.dims[1] == lit(1):
+                    fn = self.flat_name(recv, 1)
+                    if fn:
+                        dims[0] = sym(fn)       # row-major flattening: the ORDER of the merged axes is part of the type
                 return TV(dims, None)
+            if m in ('repeat', 'tile') and len(s.dims) == 2 and s.dims[1] == lit(1) and len(recv.shape) == 2 and recv.shape[1] == lit(1) \
+                    and recv.shape[0][0] == 'sym' and s.dims[0][0] == 'sym':
+                inner = recv.shape[0][1]
+                inner = inner[5:-1] if inner.startswith('prod(') else inner
+                return TV((sym('prod(%s*%s)' % (s.dims[0][1], inner)), lit(1)))
             if m in ('repeat', 'tile'):
                 reps = s.dims
                 sh = list(recv.shape)
@@ -1082,6 +1098,13 @@ class Interp:
             return TV(recv.shape[:-2]) if m == 'det' and len(recv.shape) >= 2 else same
         self.unknown += 1
         return TOP
+
+    def flat_name(self, recv, keep_tail):
+        """ordered product name of the axes of recv that a reshape(-1, <keep_tail literal dims>) merges"""
+        dims = [d0 for d0 in recv.shape if d0 != lit(1)]
+        if not dims or any(d0[0] == 'lit' for d0 in dims):
+            return None
+        return 'prod(' + '*'.join(str(d0[1]) for d0 in dims) + ')'
 
     def view_minus1(self, args, env, recv):
         dims = []
